@@ -16,9 +16,22 @@ ASSUMPTIONS = ["arguments are type-correct (interval ops get interval tiers, dur
 
 case_json = lambda c: c
 case_from_json = lambda j: j
-encode = tierops.encode
-impl = tierops.impl
-render = tierops.render
+def encode(c, enc):
+    if c["op"] == "strip":
+        return "strip " + enc.s(c["s"])
+    return tierops.encode(c, enc)
+
+
+def impl(c):
+    if c["op"] == "strip":
+        return ("ok", c["s"].strip())
+    return tierops.impl(c)
+
+
+def render(c, r, enc):
+    if c["op"] == "strip":
+        return "ok " + enc.s(r[1])
+    return tierops.render(c, r, enc)
 
 
 def wants_x(c):
@@ -28,6 +41,8 @@ def wants_x(c):
 def oracle(c, r):
     op = c["op"]
     sig = {"op": op}
+    if op == "strip":
+        return None  # unit correspondence of the model's str.strip() only
     if r[0] == "err":
         if not r[2]:
             return Failure(dict(sig, clause="praatio-error", exc=r[1]), f"{op} raised the built-in {r[1]} instead of a praatio error")
@@ -46,6 +61,8 @@ def oracle(c, r):
 
 
 def tags(c, r):
+    if c["op"] == "strip":
+        return ["strip-unit"]
     out = [c["op"], "grid" if c.get("grid") else "dec", "step:%d" % min(c.get("step", 0), 25)]
     if r[0] == "err":
         out.append("err:" + r[1])
@@ -53,6 +70,8 @@ def tags(c, r):
 
 
 def nontrivial(c, r):
+    if c["op"] == "strip":
+        return r[1] != c["s"]
     return r[0] == "err" or (isinstance(r[1], dict) and len(r[1]["es"]) > 0)
 
 
@@ -178,7 +197,26 @@ def corpus():
         yield {"op": "iinsert", "tier": it, "entry": [2.75, 2.25, "z"], "mode": mode, "report": "silence", "grid": True}
 
 
+def strip_units(rnd, tier):
+    """unit correspondence for the model's `str.strip()` / `str.isspace()` table: every whitespace code point (and its
+    neighbours) at both ends and in the middle of a label"""
+    import sys
+    ws = [cp for cp in range(sys.maxunicode + 1) if chr(cp).isspace()]
+    cps = sorted(set(ws + [w + d for w in ws for d in (-1, 1) if 0 < w + d <= sys.maxunicode and not 0xD800 <= w + d <= 0xDFFF]))
+    for cp in cps:
+        ch = chr(cp)
+        for s in (ch + "a" + ch, "a" + ch + "b", ch, ch + ch + "x y" + ch):
+            yield {"op": "strip", "s": s, "grid": True}
+    if tier == "thorough":
+        step = 97
+        for cp in range(1, sys.maxunicode + 1, step):
+            if 0xD800 <= cp <= 0xDFFF:
+                continue
+            yield {"op": "strip", "s": chr(cp) + "k" + chr(cp), "grid": True}
+
+
 def gen(rnd, tier):
+    yield from strip_units(rnd, tier)
     if tier == "thorough":
         yield from histories(rnd, 12000, 25)
     else:
